@@ -43,7 +43,7 @@ def simulate(c: dict, *, num: int, seed: int, timeout=300, hist_len=None):
     behs = []
     for payload in r.printed("BEHAVIOUR"):
         behs.append(json.loads(payload))
-    if not behs:
+    if not behs and c.get("Faults", "NoFaults") == "NoFaults":
         env.machinery_failure("JellyProducer simulation produced no behaviours:\n" + "\n".join(r.out.splitlines()[-25:]))
     return behs, r
 
